@@ -24,6 +24,7 @@
 package c02text
 
 import (
+	stdjson "encoding/json"
 	stderrors "errors"
 	"fmt"
 	"math/rand"
@@ -479,7 +480,11 @@ func Run(args []string) {
 					rep.AddDiff(vh.Diff{Component: command + ":real/e2e", Input: input, Impl: c.impl, Model: m, Class: c.class, Note: reqs[2*i]})
 				}
 			}
-			if strings.HasPrefix(cl, "UNSUP") {
+			if !stdjson.Valid([]byte(c.docTok)) {
+				// the closed form speaks about a document TOKEN: a probe that is no JSON scalar (the unquoted
+				// look-alike of a string example such as 0252…) is outside it; real/e2e above still compares it
+				rep.Stat("closed_skipped_probe_is_not_json")
+			} else if strings.HasPrefix(cl, "UNSUP") {
 				rep.Stat("closed_UNSUP")
 			} else {
 				rep.Stat("closed_answered")
